@@ -49,6 +49,7 @@ pub fn gen_scenario(rng: &mut Rng, big: bool) -> Scenario {
         tag_base: 1,
         extras_pre: &gen::EXTRAS_PREAMBLE,
         extras_stream: &gen::EXTRAS_STREAM,
+        marker: None,
     };
     let mut bytes = Vec::new();
     let built = gen::push_request(rng, &mut bytes, &spec);
